@@ -164,8 +164,14 @@ def lit_value(tok):
   return int(size), v
 
 class Parser:
-  def __init__(s, text):
-    s.toks = tokenize(text); s.i = 0; s.f = SvFile()
+  def __init__(s, text, lenient=False):
+    # lenient = REPAIR MODE used only to classify a disagreement (never to accept a design): the three shapes below are
+    # read the way the translator evidently meant them, and each reading is recorded in f.repairs
+    #   ( ^ a op b )            -> ^( a op b )            reduce_*( a op b ) emitted without parentheses
+    #   { n { a op b[k] } }     -> { n { {a op b}[k] } }  sext( a op b ) / sext( c ? a : b ) emitted without parentheses
+    #   N'( e )[k], ( e )[k]    -> { N'( e ) }[k]         sext( trunc(..) ) etc.: select on a non-identifier
+    s.lenient = lenient
+    s.toks = tokenize(text); s.i = 0; s.f = SvFile(); s.f.repairs = []
     s.local_rename = {}     # loop variables declared in a for header: name -> unique name (within the current block)
     s.blk_label = None; s.local_decls = []
   # -- token helpers
@@ -488,24 +494,63 @@ class Parser:
       r = s.binary(lvl + 1)
       e = ('bin', hit[0], e, r)
   def unary(s):
+    if s._inject is not None: return s.primary()
     k, v, ln = s.peek()
     if k == 'op' and v in UNMODELLED_OPS: raise Unmodelled(f'operator {v} (line {ln})')
     if k == 'op' and v in UNOPS:
       s.next(); a = s.unary()
+      if v in '&|^' and s.peek()[0] == 'op' and any(s.peek()[1] == t for lvl in BINOPS for (t, c) in lvl):
+        # `( ^ a ^ b )`: the reduction applies to `a` only.  (legitimate text always closes the parenthesis right after
+        # the operand of a reduction: visit_Reduce emits `( op value )`)
+        s.f.notes.append(f'line {ln}: reduction operator {v} binds to the first operand of an unparenthesised expression')
+        if s.lenient:
+          s.f.repairs.append('reduce-of-binop')
+          rest = s.continue_binary(a)
+          return ('un', UNOPS[v], rest)
       return ('un', UNOPS[v], a)
     return s.primary()
+  def continue_binary(s, left):
+    """lenient mode: parse `left op x op y ...` up to the closing parenthesis with the normal precedences"""
+    # re-enter the precedence climber with `left` as an already parsed primary
+    s._inject = left
+    try: return s.expr()
+    finally: s._inject = None
+  def hoist_select(s, e):
+    """a op b[k]  ->  { a op b }[k] : move the select that ends the right-most operand to the whole expression"""
+    def strip(x):
+      if x[0] == 'bin':
+        r = strip(x[3]); return None if r is None else (('bin', x[1], x[2], r[0]), r[1])
+      if x[0] == 'cond':
+        r = strip(x[3]); return None if r is None else (('cond', x[1], x[2], r[0]), r[1])
+      if x[0] == 'index': return (x[1], x[2])
+      return None
+    r = strip(e)
+    return None if r is None else ('index', ('concat', [r[0]]), r[1])
+  def lenient_select(s, e, tag):
+    if s.lenient and s.at('['):
+      s.next(); a = s.expr(); s.expect(']')
+      s.f.repairs.append(tag)
+      return ('index', ('concat', [e]), a)
+    return e
   def no_select(s, what):
+    if s.at('[') and s.lenient:
+      s._pending_select = what
+      return
     if s.at('['):
       k, v, ln = s.peek()
       ctx = ' '.join(t[1] for t in s.toks[max(0, s.i - 8): s.i + 4])
       raise SelectOnExpression(f'line {ln}: select applied to {what}: `{ctx}`')
+  _inject = None
   def primary(s):
+    if s._inject is not None:
+      e = s._inject; s._inject = None
+      return e
     k, v, ln = s.peek()
     if k == 'slit':
       s.next(); w, val = lit_value(v)
       if w <= 0: raise s.err('zero-width literal')
       s.no_select('a literal')
-      return ('lit', w, val)
+      return s.lenient_select(('lit', w, val), 'sext-of-literal')
     if k == 'ulit': raise Unmodelled(f'unsized based literal {v}')
     if k == 'num':
       n = s.number()
@@ -514,13 +559,13 @@ class Parser:
         s.next(); s.next(); a = s.expr(); s.expect(')')
         if n <= 0: raise s.err('zero-width cast')
         s.no_select('a size cast')
-        return ('cast', n, a)
+        return s.lenient_select(('cast', n, a), 'sext-of-trunc')
       return ('num', n)
     if k == 'sysid': raise Unmodelled(f'system function {v}')
     if v == '(':
       s.next(); e = s.expr(); s.expect(')')
       s.no_select('a parenthesised expression')
-      return e
+      return s.lenient_select(e, 'sext-of-parenthesised')
     if v == '{':
       s.next()
       first = s.expr()
@@ -532,6 +577,12 @@ class Parser:
         s.expect('}'); s.expect('}')
         if n <= 0: raise s.err('non-positive replication count')
         if s.at('['): raise Unmodelled('select on a replication')
+        if len(xs) == 1 and xs[0][0] in ('bin', 'cond'):
+          s.f.notes.append(f'line {ln}: replication of an unparenthesised operator expression `{{ {n} {{ ... }} }}`')
+          if s.lenient:
+            fixed = s.hoist_select(xs[0])
+            if fixed is not None:
+              s.f.repairs.append('sext-of-binop' if xs[0][0] == 'bin' else 'sext-of-ifexp'); xs = [fixed]
         return ('repl', n, xs[0] if len(xs) == 1 else ('concat', xs))
       xs = [first]
       while s.at(','): s.next(); xs.append(s.expr())
@@ -552,8 +603,8 @@ class Parser:
       return s.selects(('id', s.local_rename.get(name, name)))
     raise s.err('expected an expression')
 
-def parse_file(text):
-  return Parser(text).parse_file()
+def parse_file(text, lenient=False):
+  return Parser(text, lenient).parse_file()
 
 # ---------------------------------------------------------------------- small static helpers used by the harnesses
 def walk_exprs(e, fn):
